@@ -26,7 +26,7 @@ def run(j):
     pid, n, patch, demo_src = j
     name = "%s_%d" % (pid, n)
     p = subprocess.run([sys.executable, os.path.join(ROOT, "tools", "mutant.py"), patch, name, "--confirm", demo_src, "--props", pid],
-                       stdout=subprocess.PIPE, stderr=subprocess.STDOUT, text=True)
+                       stdout=subprocess.PIPE, stderr=subprocess.STDOUT, text=True, env=dict(os.environ, VERIF_COMPILE_JOBS="8"))
     last = [l for l in p.stdout.splitlines() if l.startswith("{")]
     rec = json.loads(last[-1]) if last else {"name": name, "error": p.stdout[-500:]}
     rec["property"] = pid
